@@ -314,6 +314,92 @@ class Failure(object):
                 "detail": self.detail}
 
 
+# ---------------------------------------------------------------- watchdog
+class NonTermination(BaseException):
+    """nfcpy code keeps looping (raised inside the looping code itself)"""
+    where = ""
+
+
+class _Watchdog(object):
+    """a case that is still running after VERIF_CASE_WALL seconds (default
+    60; cases take milliseconds) is a *candidate* for non-termination.  The
+    verdict does not rest on the wall clock: from then on every loop
+    iteration (backward jump) and function entry executed inside the nfc
+    package is counted (sys.monitoring), and only when STEP_BUDGET further
+    ones have been executed without the case ending NonTermination is raised
+    inside the looping code, in whichever thread runs it.  A slow but
+    terminating case just finishes."""
+    TOOL = 3
+    STEP_BUDGET = 20000000
+    depth = 0
+
+    def __enter__(self):
+        import signal
+        import threading
+        self.armed = False
+        self.monitoring = False
+        if _Watchdog.depth or not hasattr(sys, "monitoring") or \
+                threading.current_thread() is not threading.main_thread():
+            return self
+        _Watchdog.depth += 1
+        self.armed = True
+        self.steps = 0
+        self.prefix = os.path.join(REPO_SRC, "nfc") + os.sep
+        self.old = signal.signal(signal.SIGALRM, self._alarm)
+        signal.setitimer(signal.ITIMER_REAL,
+                         float(os.environ.get("VERIF_CASE_WALL", "60")))
+        return self
+
+    def _alarm(self, signum, frame):
+        mon = sys.monitoring
+        try:
+            mon.use_tool_id(self.TOOL, "verif-watchdog")
+        except ValueError:
+            return
+        self.monitoring = True
+        ev = mon.events
+        mon.register_callback(self.TOOL, ev.JUMP, self._jump)
+        mon.register_callback(self.TOOL, ev.PY_START, self._start)
+        mon.set_events(self.TOOL, ev.JUMP | ev.PY_START)
+
+    def _count(self, code):
+        if not code.co_filename.startswith(self.prefix):
+            return sys.monitoring.DISABLE
+        self.steps += 1
+        if self.steps > self.STEP_BUDGET:
+            e = NonTermination(
+                "still running after %s s of wall time and %d further loop "
+                "iterations / calls inside nfcpy, last in %s:%s"
+                % (os.environ.get("VERIF_CASE_WALL", "60"), self.STEP_BUDGET,
+                   os.path.basename(code.co_filename), code.co_name))
+            e.where = "nfc.%s:%s" % (
+                code.co_filename[len(self.prefix):-3].replace(os.sep, "."),
+                code.co_name)
+            raise e
+
+    def _jump(self, code, src, dst):
+        if dst < src:
+            return self._count(code)
+
+    def _start(self, code, offset):
+        return self._count(code)
+
+    def __exit__(self, *exc):
+        if self.armed:
+            import signal
+            signal.setitimer(signal.ITIMER_REAL, 0)
+            signal.signal(signal.SIGALRM, self.old)
+            _Watchdog.depth -= 1
+            if self.monitoring:
+                mon = sys.monitoring
+                mon.set_events(self.TOOL, 0)
+                mon.register_callback(self.TOOL, mon.events.JUMP, None)
+                mon.register_callback(self.TOOL, mon.events.PY_START, None)
+                mon.free_tool_id(self.TOOL)
+        return False
+
+
+
 def run_case(leg, jcase, acct, active_known):
     """execute one case.  Returns None (held), or a Failure.  A failure that
     matches an active known finding is counted and reported as held."""
@@ -321,9 +407,13 @@ def run_case(leg, jcase, acct, active_known):
     case = from_json(jcase)
     try:
         try:
-            leg.run(case, ctx)
+            with _Watchdog():
+                leg.run(case, ctx)
         except (Violation, HarnessError):
             raise
+        except NonTermination as e:
+            raise Violation("no-termination", str(e), exc="NonTermination",
+                            frame=e.where)
         except Exception as e:
             raise unexpected(e)
     except Violation as v:
@@ -382,7 +472,8 @@ def run_leg_shard(prop, leg, tier, seed, shard_i, shard_n, active_known,
         if f is not None:
             state["failure"] = f
             state["fail_calls"] += 1
-            if state["fail_calls"] > shrink_budget:
+            if state["fail_calls"] > shrink_budget or \
+                    f.sig["oracle"] == "no-termination":
                 state["stop"] = True
             raise Violation(f.sig["oracle"], f.detail)
 
